@@ -66,6 +66,13 @@ fn u_sets(d: u8) -> Vec<Rows> {
 /// all maps key in 0..k -> absent | any subset of 0..v (the empty subset = a bottom entry);
 /// a row is [key, values...]
 fn u_maps(k: u8, v: u8) -> Vec<Rows> {
+    u_maps_opt(k, v, true)
+}
+/// `bottoms == false`: keys are absent or hold a NON-empty subset
+fn u_maps_opt(k: u8, v: u8, bottoms: bool) -> Vec<Rows> {
+    if !bottoms {
+        return u_maps_opt(k, v, true).into_iter().filter(|rows| rows.iter().all(|r| r.len() > 1)).collect();
+    }
     let per: u32 = 1 + (1 << v);
     (0..per.pow(k as u32))
         .map(|mut c| {
@@ -129,14 +136,15 @@ cartesian_spec!(CartHBB, "HashSet x BTreeSet -> BTreeSet", HashSet<u8>, BTreeSet
 // ------------------------------------------------------------------------------------------------
 // KeyedBimorphism<_, CartesianProductBimorphism>
 // ------------------------------------------------------------------------------------------------
-pub struct KeyedHash(pub u8, pub u8);
+/// (keys, vals, include keys holding a bottom value)
+pub struct KeyedHash(pub u8, pub u8, pub bool);
 impl Bim for KeyedHash {
     type A = MapUnionHashMap<u8, SetUnionHashSet<u8>>;
     type B = MapUnionHashMap<u8, SetUnionHashSet<u8>>;
     type O = MapUnionHashMap<u8, SetUnion<HashSet<(u8, u8)>>>;
-    fn name(&self) -> String { format!("KeyedBimorphism<HashMap,CartesianProduct<HashSet>> keys={} vals={}", self.0, self.1) }
-    fn ua(&self) -> Vec<Rows> { u_maps(self.0, self.1) }
-    fn ub(&self) -> Vec<Rows> { u_maps(self.0, self.1) }
+    fn name(&self) -> String { format!("KeyedBimorphism<HashMap,CartesianProduct<HashSet>> keys={} vals={}{}", self.0, self.1, if self.2 { "" } else { " (no bottom-valued keys)" }) }
+    fn ua(&self) -> Vec<Rows> { u_maps_opt(self.0, self.1, self.2) }
+    fn ub(&self) -> Vec<Rows> { u_maps_opt(self.0, self.1, self.2) }
     fn mk_a(&self, r: &Rows) -> Self::A { MapUnion::new(r.iter().map(|row| (row[0], SetUnion::new(row[1..].iter().copied().collect::<HashSet<u8>>()))).collect::<HashMap<_, _>>()) }
     fn mk_b(&self, r: &Rows) -> Self::B { self.mk_a(r) }
     fn join_a(&self, a: Self::A, d: Self::A) -> Self::A { Merge::merge_owned(a, d) }
@@ -394,7 +402,11 @@ pub fn check_case<S: Bim>(s: &S, side: &str, a: &Rows, d: &Rows, b: &Rows) -> Re
 struct ShardOut {
     st: Stats,
     fails: Vec<Fail>,
+    /// exact number of non-trivial triples (each triple is enumerated exactly once, so this is a
+    /// count of distinct cases); only the first NT_CAP per shard are also put into the hash set
+    nontrivial: u64,
 }
+const NT_CAP: u64 = 2048;
 
 fn machinery(msg: String) -> ! {
     println!("MACHINERY-ERROR: {msg}");
@@ -406,54 +418,63 @@ pub fn run_spec<S: Bim>(s: Arc<S>, threads: usize) -> (Stats, Value) {
     let ub = Arc::new(s.ub());
     let (na, nb) = (ua.len(), ub.len());
     let (s2, ua2, ub2) = (s.clone(), ua.clone(), ub.clone());
+    let name_hash = vf_explore::hash_of(&s.name());
     // shard i < nb: left distribution with b = ub[i] fixed; shard nb + j: right with a = ua[j] fixed
     let work = move |i: usize, beat: &Beat| -> ShardOut {
         let s = &*s2;
-        let mut out = ShardOut { st: Stats::new(), fails: vec![] };
+        let mut out = ShardOut { st: Stats::new(), fails: vec![], nontrivial: 0 };
         let name = s.name();
+        // the real argument objects, built once per shard and cloned per use
+        let oa: Vec<S::A> = ua2.iter().map(|a| s.mk_a(a)).collect();
+        let ob: Vec<S::B> = ub2.iter().map(|b| s.mk_b(b)).collect();
         if i < nb {
             let b = &ub2[i];
-            let fb: Vec<S::O> = ua2.iter().map(|a| s.call(s.mk_a(a), s.mk_b(b))).collect();
+            let fb: Vec<S::O> = oa.iter().map(|a| s.call(a.clone(), ob[i].clone())).collect();
             for (ia, a) in ua2.iter().enumerate() {
                 for (id, d) in ua2.iter().enumerate() {
                     beat.tick();
                     out.st.eval();
                     let r = catch(|| {
-                        let lhs = s.call(s.join_a(s.mk_a(a), s.mk_a(d)), s.mk_b(b));
+                        let lhs = s.call(s.join_a(oa[ia].clone(), oa[id].clone()), ob[i].clone());
                         let rhs = s.join_o(fb[ia].clone(), fb[id].clone());
                         judge(s, lhs, rhs, &fb[id])
                     });
-                    record(&mut out, &name, "left", a, d, b, r);
+                    record(&mut out, &name, name_hash, "left", a, d, b, r);
                 }
             }
         } else {
-            let a = &ua2[i - nb];
-            let fa: Vec<S::O> = ub2.iter().map(|b| s.call(s.mk_a(a), s.mk_b(b))).collect();
+            let ja = i - nb;
+            let a = &ua2[ja];
+            let fa: Vec<S::O> = ob.iter().map(|b| s.call(oa[ja].clone(), b.clone())).collect();
             for (ib, b) in ub2.iter().enumerate() {
                 for (id, d) in ub2.iter().enumerate() {
                     beat.tick();
                     out.st.eval();
                     let r = catch(|| {
-                        let lhs = s.call(s.mk_a(a), s.join_b(s.mk_b(b), s.mk_b(d)));
+                        let lhs = s.call(oa[ja].clone(), s.join_b(ob[ib].clone(), ob[id].clone()));
                         let rhs = s.join_o(fa[ib].clone(), fa[id].clone());
                         judge(s, lhs, rhs, &fa[id])
                     });
-                    record(&mut out, &name, "right", a, d, b, r);
+                    record(&mut out, &name, name_hash, "right", a, d, b, r);
                 }
             }
         }
         out
     };
-    fn record(out: &mut ShardOut, name: &str, side: &'static str, a: &Rows, d: &Rows, b: &Rows, r: Result<Result<(Abs, bool), String>, String>) {
+    #[allow(clippy::too_many_arguments)]
+    fn record(out: &mut ShardOut, name: &str, name_hash: u64, side: &'static str, a: &Rows, d: &Rows, b: &Rows, r: Result<Result<(Abs, bool), String>, String>) {
         match r {
             Ok(Ok((abs, nonbot))) => {
-                out.st.outcome(&(name, &abs));
-                // non-trivial: the delta is not already contained in the other operand of the
-                // merge and the delta's own image is not bottom
+                out.st.outcome(&(name_hash, &abs));
+                // non-trivial: the delta is not already contained in the operand it is merged into
+                // and the delta's own image is not bottom
                 let (x, dx) = if side == "left" { (a, d) } else { (b, d) };
                 let contained = dx.iter().all(|row| x.contains(row));
                 if !contained && nonbot {
-                    out.st.nontrivial(&(name, side, a, d, b));
+                    out.nontrivial += 1;
+                    if out.nontrivial <= NT_CAP {
+                        out.st.nontrivial(&(name_hash, side, a, d, b));
+                    }
                 }
                 out.st.sample(|| json!({"bimorphism": name, "side": side, "a": a, "delta": d, "b": b, "f(merged) as tuples": show_abs(&abs)}));
             }
@@ -461,6 +482,7 @@ pub fn run_spec<S: Bim>(s: Arc<S>, threads: usize) -> (Stats, Value) {
             Err(p) => { if out.fails.len() < 3 { out.fails.push(Fail { side, a: a.clone(), d: d.clone(), b: b.clone(), msg: format!("panic: {p}") }); } }
         }
     }
+    let mut nontrivial = 0u64;
     let mut st = Stats::new();
     match guard::run(na + nb, threads, Arc::new(work)) {
         Outcome::Done(outs) => {
@@ -468,6 +490,7 @@ pub fn run_spec<S: Bim>(s: Arc<S>, threads: usize) -> (Stats, Value) {
             for o in outs {
                 st.merge(o.st);
                 fails.extend(o.fails);
+                nontrivial += o.nontrivial;
             }
             for f in fails.into_iter().take(4) {
                 // right side failures carry (a fixed, b, d): normalise to (a, d, b) argument order of check_case
@@ -484,6 +507,6 @@ pub fn run_spec<S: Bim>(s: Arc<S>, threads: usize) -> (Stats, Value) {
         Outcome::Hang { shard, .. } => machinery(format!("C07 {}: shard {shard} exceeded the step budget", s.name())),
         Outcome::Panic(p) => machinery(format!("C07 {}: harness worker panicked: {p}", s.name())),
     }
-    let info = json!({"bimorphism": s.name(), "values_a": na, "values_b": nb, "triples": na * na * nb + na * nb * nb});
+    let info = json!({"bimorphism": s.name(), "values_a": na, "values_b": nb, "triples": na * na * nb + na * nb * nb, "nontrivial_exact": nontrivial});
     (st, info)
 }
